@@ -192,6 +192,20 @@ impl<'w> DocsRun<'w> {
     pub async fn exec(&mut self, op: &Value) -> Option<Value> {
         let w = self.w;
         let kind = op["op"].as_str().unwrap();
+        // optionally leave a particular kind of "current transaction" in the store right before the call:
+        // a read snapshot (list_*), or an open write transaction (an author import)
+        match op["pre"].as_str() {
+            Some("list") => {
+                let _ = self.store.as_mut().unwrap().list_namespaces().map(|it| it.count());
+            }
+            Some("listauthors") => {
+                let _ = self.store.as_mut().unwrap().list_authors().map(|it| it.count());
+            }
+            Some("write") => {
+                let _ = self.store.as_mut().unwrap().import_author(w.stranger.clone());
+            }
+            _ => {}
+        }
         let d = op["d"].as_u64().unwrap_or(0) as usize;
         iroh_docs::verif::set_clock(op["now"].as_u64().unwrap_or(1000));
         let ev = match kind {
@@ -414,6 +428,10 @@ pub fn gen_history(r: &mut Rng, t: &DocTable, len: usize, file: bool) -> Vec<Val
         } else {
             json!({"op":"open","d":rd})
         };
+        let mut op = op;
+        if !matches!(op["op"].as_str(), Some("reopen") | Some("dropderived")) && r.chance(1, 6) {
+            op["pre"] = json!(*r.pick(&["list", "listauthors", "write"]));
+        }
         ops.push(op);
     }
     ops
